@@ -1,3 +1,4 @@
+import MesaModel.Gen.LayersTables
 /-
 Model of the two property-layer implementations of mesa (property C11, C18-layers):
 
@@ -14,10 +15,17 @@ to `layer.data` taken earlier (a *handle*) goes stale exactly when the code's do
 attribute (`PropertyDescriptor`) reads and writes `layer.data[cell.coordinate]` through the
 *layer*, so it follows re-pointing.
 
-Values are `Int` (bool layers hold 0/1; float layers are exercised with dyadic values that
-the harness scales to ints).  Element-wise operations and conditions are arbitrary functions
-`Int → Int` / `Int → Bool`; numpy's broadcasting of a scalar and `np.vectorize` are trusted
-to apply them point-wise.
+Every array has an element type (`DType`: numpy `bool_`, `int64`, `float64`) fixed when it is allocated;
+its entries are `Int`s in the encoding of that type (bool: 0/1; int: the integer; float: the number
+in quarters — the harness uses multiples of 1/4, exact in binary64).  A write of a Python scalar of
+another type is cast the way numpy does it (`castTo`: assignment truncates a float into an int array
+toward zero and turns anything into its truth value in a bool array; `np.copyto` — `set_cells` — refuses
+casts that are not `same_kind`); `modify_cells` allocates an array of the *promoted* type
+(`np.where(cond, modified, data)`), so a layer's dtype can change when it is re-pointed, and later
+writes are cast by the new type.  Element-wise operations and conditions are arbitrary functions
+`Int → Int` / `Int → Bool` on encoded entries (`UOp` gives numpy's own arithmetic / logical ufuncs with
+their result types); numpy's broadcasting of a scalar and `np.vectorize` are trusted to apply them
+point-wise.
 
 Occupancy is minimal: a list of placed agents with their coordinate — just enough to drive
 the emptiness layer / mask the way the code does.
@@ -45,13 +53,111 @@ def inBounds : List Nat → Coord → Bool
 /-- `a[c] = v` -/
 def Arr.set (a : Arr) (c : Coord) (v : Int) : Arr := fun c' => if c' = c then v else a c'
 
+/-! ### element types, Python scalars and numpy's casts -/
+
+/-- element type of an array: numpy `bool_`, `int64`, `float64` -/
+inductive DType where | bool | int | float
+deriving Repr, DecidableEq
+
+def DType.rank : DType → Nat
+  | .bool => 0
+  | .int => 1
+  | .float => 2
+
+/-- `np.result_type` on {bool_, int64, float64}, also for an array combined with a Python scalar
+    (NEP 50: the scalar is weak but its *kind* counts): the larger of the two -/
+def DType.join (a b : DType) : DType := if a.rank ≤ b.rank then b else a
+
+/-- a Python scalar handed to the API: its type and its value in that type's encoding
+    (`True` = ⟨bool, 1⟩, `3` = ⟨int, 3⟩, `2.5` = ⟨float, 10⟩) -/
+structure Val where
+  ty : DType
+  raw : Int
+deriving Repr, DecidableEq
+
+def boolInt (b : Bool) : Int := if b then 1 else 0
+
+/-- the number an encoded entry stands for, in quarters -/
+def quarters (d : DType) (v : Int) : Int :=
+  match d with
+  | .float => v
+  | _ => 4 * v
+
+/-- `arr[idx] = x` on an array of dtype `d` — numpy's assignment cast (`casting="unsafe"`): a float
+    is truncated toward zero into an int array, anything becomes its truth value in a bool array,
+    bools and ints enter a wider array exactly -/
+def castTo (d : DType) (x : Val) : Int :=
+  match d with
+  | .bool => boolInt (x.raw != 0)
+  | .int => match x.ty with
+    | .float => x.raw.tdiv 4
+    | _ => x.raw
+  | .float => match x.ty with
+    | .float => x.raw
+    | _ => 4 * x.raw
+
+/-- `np.copyto(arr, x)` (`set_cells`) casts with `casting="same_kind"`: bool → int → float only -/
+def sameKind (src dst : DType) : Bool := decide (src.rank ≤ dst.rank)
+
+/-- re-encoding of an entry when an array of dtype `d` is copied into one of dtype `d'` -/
+def recode (d d' : DType) (v : Int) : Int := if d = d' then v else castTo d' ⟨d, v⟩
+
+/-- a value handed to a single-cell or bulk write: already in the array's own encoding (`raw`: a value
+    of the layer's dtype, whatever that is), or a Python scalar that numpy casts on the way in (`py`) -/
+inductive WVal where
+  | raw (v : Int)
+  | py (x : Val)
+
+instance : OfNat WVal n := ⟨.raw n⟩
+instance : Coe Int WVal := ⟨.raw⟩
+
+def WVal.resolve (d : DType) : WVal → Int
+  | .raw v => v
+  | .py x => castTo d x
+
+/-- numpy's binary ufuncs used with `modify_cells(ufunc, value)` / the same operators in a Python function -/
+inductive UOp where | add | sub | mul | max | min | land | lor | lxor
+deriving Repr, DecidableEq
+
+/-- dtype of `ufunc(array of dtype d, Python scalar of type t)`; `none`: numpy raises `TypeError`
+    (boolean subtract).  Arithmetic promotes (on two bools `+`, `*`, max, min are or / and and stay
+    bool); the logical ufuncs always give bool. -/
+def UOp.result (op : UOp) (d t : DType) : Option DType :=
+  match op with
+  | .land | .lor | .lxor => some .bool
+  | .sub => if d = .bool ∧ t = .bool then none else some (d.join t)
+  | _ => some (d.join t)
+
+/-- a number in quarters as an entry of dtype `rd` (exact whenever numpy's result is of that type) -/
+def fromQuarters (rd : DType) (q : Int) : Int :=
+  match rd with
+  | .bool => boolInt (q != 0)
+  | .int => q.tdiv 4
+  | .float => q
+
+/-- the element-wise function of `ufunc(·, x)` on an array of dtype `d`: from the array's encoding to the
+    encoding of the result dtype -/
+def UOp.apply (op : UOp) (d : DType) (x : Val) (v : Int) : Int :=
+  let q := quarters d v
+  let w := quarters x.ty x.raw
+  let r : Int := match op with
+    | .add => q + w
+    | .sub => q - w
+    | .mul => (q * w).tdiv 4
+    | .max => Max.max q w
+    | .min => Min.min q w
+    | .land => 4 * boolInt (q != 0 && w != 0)
+    | .lor => 4 * boolInt (q != 0 || w != 0)
+    | .lxor => 4 * boolInt ((q != 0) != (w != 0))
+  fromQuarters ((op.result d x.ty).getD .bool) r
+
 /-- a `PropertyLayer` object -/
 structure Layer where
   name : String
   dims : List Nat
   data : Nat
 
-inductive Why where | dims | exists | clash | ufunc | mode | empty
+inductive Why where | dims | exists | clash | ufunc | mode | empty | radius
 deriving Repr, DecidableEq
 
 inductive Err where
@@ -59,9 +165,11 @@ inductive Err where
   | key                -- KeyError
   | attr               -- AttributeError
   | index              -- IndexError / cell lookup outside the grid / point out of bounds
+  | type               -- TypeError: numpy refuses the cast (`np.copyto`, same_kind) or the operation (bool - bool)
   | full               -- target cell full (protocol precondition for moves, see harness)
   | placed | notPlaced -- protocol preconditions of the minimal occupancy model
   | noLayer | noHandle | noMask | impl   -- protocol errors: unknown id / op of the other implementation
+  | shadowed           -- `grid.<name>` is an attribute the user gave the grid object itself, not a layer
 deriving Repr, DecidableEq
 
 inductive Out where
@@ -71,20 +179,19 @@ inductive Out where
   | arr (vs : List Int)
   | sel (list : List Coord) (mask : List Bool)
   | emp (view : Option (List Int)) (actual : List Bool)
+  | dt (d : DType)
   | err (e : Err)
 deriving Repr, DecidableEq
 
-/-- every attribute of `Cell` / the dynamic `GridCell` class (`dir(grid.cell_klass)` without
-    layer descriptors): `add_property_layer` refuses these names (`hasattr(cell_klass, name)`) -/
+/-- every attribute of `Cell` / the dynamic `GridCell` class: `add_property_layer` refuses these names
+    (`hasattr(self.cell_klass, layer.name)`).  The list is not written by hand: it is the union of the names
+    the *source* gives the class (`Gen/LayersTables.lean`, extracted from `cell.py` / `grid.py` on every check:
+    `Cell.__slots__`, its methods, properties and class attributes, the dict of the dynamic `GridCell` class)
+    and of what Python gives any class; `Props/C11.lean` proves it equal to `dir(grid.cell_klass)` of the
+    running code. -/
 def reservedNames : List String :=
-  ["_agents", "_mesa_properties", "_neighborhood", "add_agent", "agents", "capacity", "connect",
-   "connections", "coordinate", "disconnect", "get_neighborhood", "is_empty", "is_full",
-   "neighborhood", "properties", "random", "remove_agent",
-   "__class__", "__delattr__", "__dict__", "__dir__", "__doc__", "__eq__", "__format__", "__ge__",
-   "__getattribute__", "__getstate__", "__gt__", "__hash__", "__init__", "__init_subclass__",
-   "__le__", "__lt__", "__module__", "__ne__", "__new__", "__reduce__", "__reduce_ex__",
-   "__repr__", "__setattr__", "__sizeof__", "__slots__", "__str__", "__subclasshook__",
-   "__weakref__"]
+  Gen.cellSlots ++ Gen.cellMethods ++ Gen.cellProperties ++ Gen.cellClassAttrs ++ Gen.gridCellDict ++
+    Gen.pythonImplied
 
 structure State where
   impl : Impl
@@ -92,6 +199,8 @@ structure State where
   /-- `new` only: cell capacity, 0 = unbounded (`None` and 0 are both falsy in `add_agent`) -/
   cap : Nat
   heap : Nat → Arr
+  /-- element type of every array; fixed at allocation (numpy arrays never change their dtype) -/
+  adt : Nat → DType
   next : Nat
   layers : Nat → Layer
   nLayers : Nat
@@ -105,6 +214,9 @@ structure State where
   inst : List ((String × Coord) × Int)
   /-- masks returned by earlier mask-form selections and kept by the user -/
   masks : List (Nat × (Coord → Bool))
+  /-- `new` only: names the user assigned on the grid object (`grid.<name> = x`: accepted only while no layer of
+      that name is attached); such an instance attribute is found before `HasPropertyLayers.__getattr__` is asked -/
+  gattrs : List String
 
 def upd {α : Type} (f : Nat → α) (i : Nat) (x : α) : Nat → α := fun j => if j = i then x else f j
 
@@ -112,16 +224,19 @@ def upd {α : Type} (f : Nat → α) (i : Nat) (x : α) : Nat → α := fun j =>
     layer (`Grid.__init__`: `create_property_layer("empty", True, bool)`) resp. `_empty_mask`. -/
 def init (impl : Impl) (dims : List Nat) (cap : Nat) : State :=
   { impl, dims, cap,
-    heap := fun _ _ => 1, next := 1,
+    heap := fun _ _ => 1, adt := fun _ => .bool, next := 1,
     layers := fun _ => ⟨"empty", dims, 0⟩,
     nLayers := if impl = .new then 1 else 0,
     attached := if impl = .new then [("empty", 0)] else [],
-    handles := [], agents := [], inst := [], masks := [] }
+    handles := [], agents := [], inst := [], masks := [], gattrs := [] }
 
 def State.layer? (s : State) (lid : Nat) : Option Layer :=
   if lid < s.nLayers then some (s.layers lid) else none
 
 def State.named? (s : State) (name : String) : Option Nat := s.attached.lookup name
+
+/-- the dtype of the array layer `lid` currently points to (`layer.data.dtype`) -/
+def State.dtypeOf (s : State) (lid : Nat) : DType := s.adt (s.layers lid).data
 
 /-- the current array of the layer attached under `name` -/
 def State.namedArr? (s : State) (name : String) : Option Arr :=
@@ -142,10 +257,12 @@ def attachCheck (s : State) (l : Layer) : Option Why :=
     else if l.dims ≠ s.dims then some .dims
     else none
 
-/-- `PropertyLayer(name, dims, default)`: a fresh array filled with the default -/
-def newLayer (s : State) (name : String) (dims : List Nat) (default : Int) : State × Out :=
+/-- `PropertyLayer(name, dims, default, dtype)`: a fresh array of that dtype filled with the default
+    (`np.full(dims, default, dtype)`; `default` here is the entry stored — `step` casts a Python scalar of
+    another type like an assignment does, the constructor only warns about it) -/
+def newLayer (s : State) (name : String) (dims : List Nat) (dt : DType) (default : Int) : State × Out :=
   if s.impl ≠ .new ∧ (dims.length ≠ 2 ∨ 0 ∈ dims) then (s, .err (.value .dims)) else
-  ({ s with heap := upd s.heap s.next (fun _ => default), next := s.next + 1,
+  ({ s with heap := upd s.heap s.next (fun _ => default), adt := upd s.adt s.next dt, next := s.next + 1,
             layers := upd s.layers s.nLayers ⟨name, dims, s.next⟩, nLayers := s.nLayers + 1 },
    .id s.nLayers)
 
@@ -160,11 +277,11 @@ def attach (s : State) (lid : Nat) : State × Out :=
 
 /-- `create_property_layer(name, default, dtype)` (legacy: construct with the grid's shape, then add);
     a rejected call leaves no reachable object behind -/
-def create (s : State) (name : String) (default : Int) : State × Out :=
+def create (s : State) (name : String) (dt : DType) (default : Int) : State × Out :=
   match attachCheck s ⟨name, s.dims, s.next⟩ with
   | some w => (s, .err (.value w))
   | none =>
-    ({ s with heap := upd s.heap s.next (fun _ => default), next := s.next + 1,
+    ({ s with heap := upd s.heap s.next (fun _ => default), adt := upd s.adt s.next dt, next := s.next + 1,
               layers := upd s.layers s.nLayers ⟨name, s.dims, s.next⟩, nLayers := s.nLayers + 1,
               attached := s.attached ++ [(name, s.nLayers)] },
      .id s.nLayers)
@@ -233,6 +350,33 @@ def cellGet (s : State) (name : String) (c : Coord) : Out :=
       let l := s.layers lid
       if !inBounds l.dims c then .err .index else .val (s.heap l.data c)
 
+/-! ### the same layer object on a second grid -/
+
+/-- `g2 = OrthogonalMooreGrid(layer.dimensions); g2.add_property_layer(layer)`: a second grid of the layer's
+    shape takes the layer exactly when the first would — not under the name of its own built-in `empty` layer,
+    not under a name of the cell class — and its cells then have the attribute too.  `c` is one of its cells. -/
+def otherGridCheck (s : State) (lid : Nat) (c : Coord) : Except Err Layer :=
+  if s.impl ≠ .new then .error .impl else
+  match s.layer? lid with
+  | none => .error .noLayer
+  | some l =>
+    if l.name = "empty" then .error (.value .exists)
+    else if l.name ∈ reservedNames then .error (.value .clash)
+    else if !inBounds l.dims c then .error .index
+    else .ok l
+
+/-- `g2[c].<layer.name>` on such a second grid: its descriptor reads the one array the layer points to -/
+def cellGet2 (s : State) (lid : Nat) (c : Coord) : Out :=
+  match otherGridCheck s lid c with
+  | .error e => .err e
+  | .ok l => .val (s.heap l.data c)
+
+/-- `g2[c].<layer.name> = v` on such a second grid: a write into the layer's array (cast by its dtype) -/
+def cellSet2 (s : State) (lid : Nat) (c : Coord) (w : WVal) : State × Out :=
+  match otherGridCheck s lid c with
+  | .error e => (s, .err e)
+  | .ok _ => layerSet s lid c (w.resolve (s.dtypeOf lid))
+
 /-! ### bulk operations -/
 
 def condHolds (cond : Option (Int → Bool)) (x : Int) : Bool :=
@@ -260,8 +404,66 @@ def modifyCells (s : State) (lid : Nat) (f : Option (Int → Int)) (cond : Optio
     | some f =>
       let a := s.heap l.data
       ({ s with heap := upd s.heap s.next (fun c => if condHolds cond (a c) then f (a c) else a c),
+                adt := upd s.adt s.next (s.adt l.data),
                 next := s.next + 1,
                 layers := upd s.layers lid { l with data := s.next } }, .ok)
+
+/-- `set_cells(x, condition)` with a Python scalar of any type: `np.copyto` refuses (`TypeError`, nothing
+    written) a cast that is not `same_kind`; otherwise the value enters exactly -/
+def setCellsV (s : State) (lid : Nat) (x : Val) (cond : Option (Int → Bool)) : State × Out :=
+  match s.layer? lid with
+  | none => (s, .err .noLayer)
+  | some l =>
+    if !sameKind x.ty (s.adt l.data) then (s, .err .type)
+    else setCells s lid (castTo (s.adt l.data) x) cond
+
+/-- `set_cells(arr, condition)` / `grid.set_property(name, arr, condition)` / `layer.data = arr` with an *array*
+    value the user holds, of the layer's shape (another shape is a protocol error here: numpy would broadcast
+    or raise): `np.copyto(data, arr[, where=cond(data)])` — in place, point-wise `arr[c]` where the old entry
+    satisfies the condition; the array's dtype must be `same_kind`-castable (`TypeError` otherwise) -/
+def setFrom (s : State) (lid : Nat) (h : Nat) (cond : Option (Int → Bool)) : State × Out :=
+  match s.layer? lid with
+  | none => (s, .err .noLayer)
+  | some l =>
+    match s.handles.lookup h with
+    | none => (s, .err .noHandle)
+    | some (a, dims) =>
+      if dims ≠ l.dims then (s, .err (.value .dims))
+      else if !sameKind (s.adt a) (s.adt l.data) then (s, .err .type)
+      else
+        let src := s.heap a
+        let old := s.heap l.data
+        ({ s with heap := upd s.heap l.data (fun c =>
+              if condHolds cond (old c) then recode (s.adt a) (s.adt l.data) (src c) else old c) }, .ok)
+
+/-- `modify_cells` whose operation yields entries of dtype `rd` (`f` maps an entry of the layer to an entry
+    in `rd`'s encoding): `self.data = np.where(cond, modified, data)` is an array of the promoted dtype
+    `join d rd`, into which both branches are re-encoded — exactly, promotion never loses a value -/
+def modifyCellsT (s : State) (lid : Nat) (f : Option (Int → Int)) (cond : Option (Int → Bool)) (rd : DType) :
+    State × Out :=
+  match s.layer? lid with
+  | none => (s, .err .noLayer)
+  | some l =>
+    match f with
+    | none => (s, .err (.value .ufunc))
+    | some f =>
+      let a := s.heap l.data
+      let d := s.adt l.data
+      ({ s with heap := upd s.heap s.next (fun c => if condHolds cond (a c) then recode rd (d.join rd) (f (a c))
+                                                    else recode d (d.join rd) (a c)),
+                adt := upd s.adt s.next (d.join rd),
+                next := s.next + 1,
+                layers := upd s.layers lid { l with data := s.next } }, .ok)
+
+/-- `modify_cells(np.add | … , x, condition)` (or the same operator in a Python function) with a Python
+    scalar of any type: numpy's result type decides the dtype of the new array -/
+def modifyU (s : State) (lid : Nat) (op : UOp) (x : Val) (cond : Option (Int → Bool)) : State × Out :=
+  match s.layer? lid with
+  | none => (s, .err .noLayer)
+  | some l =>
+    match op.result (s.adt l.data) x.ty with
+    | none => (s, .err .type)
+    | some rd => modifyCellsT s lid (some (op.apply (s.adt l.data) x)) cond rd
 
 /-- legacy `modify_cell(position, operation, value)` — in place -/
 def modifyCell (s : State) (lid : Nat) (c : Coord) (f : Option (Int → Int)) : State × Out :=
@@ -276,6 +478,20 @@ def modifyCell (s : State) (lid : Nat) (c : Coord) (f : Option (Int → Int)) : 
       let a := s.heap l.data
       ({ s with heap := upd s.heap l.data (a.set c (f (a c))) }, .ok)
 
+/-- legacy `modify_cell(position, ufunc | Python function, x)` with a Python scalar of any type:
+    `self.data[position] = operation(current, x)` — numpy's result for the two scalars, then the assignment
+    cast back into the array (an int layer keeps only the integer part of `3 + 0.5`, where `modify_cells`
+    would have promoted the whole layer) -/
+def modifyCellU (s : State) (lid : Nat) (c : Coord) (op : UOp) (x : Val) : State × Out :=
+  if s.impl = .new then (s, .err .impl) else
+  match s.layer? lid with
+  | none => (s, .err .noLayer)
+  | some l =>
+    if !inBounds l.dims c then (s, .err .index) else
+    match op.result (s.adt l.data) x.ty with
+    | none => (s, .err .type)
+    | some rd => modifyCell s lid c (some fun v => castTo (s.adt l.data) ⟨rd, op.apply (s.adt l.data) x v⟩)
+
 /-! ### user-held array references -/
 
 /-- `h = layer.data` -/
@@ -283,6 +499,19 @@ def grab (s : State) (h : Nat) (lid : Nat) : State × Out :=
   match s.layer? lid with
   | none => (s, .err .noLayer)
   | some l => ({ s with handles := (h, (l.data, l.dims)) :: s.handles }, .ok)
+
+/-- `PropertyLayer.from_data(name, arr)` (new implementation) for an array the user holds: a layer object
+    of the array's shape and dtype (`__init__` with `default_value = arr[0, …, 0]`, `IndexError` for an empty
+    array) holding a *copy* of it (`set_cells(arr)`): the layer never aliases the source -/
+def fromData (s : State) (name : String) (h : Nat) : State × Out :=
+  if s.impl ≠ .new then (s, .err .impl) else
+  match s.handles.lookup h with
+  | none => (s, .err .noHandle)
+  | some (a, dims) =>
+    if 0 ∈ dims then (s, .err .index) else
+    ({ s with heap := upd s.heap s.next (s.heap a), adt := upd s.adt s.next (s.adt a), next := s.next + 1,
+              layers := upd s.layers s.nLayers ⟨name, dims, s.next⟩, nLayers := s.nLayers + 1 },
+     .id s.nLayers)
 
 def hget (s : State) (h : Nat) (c : Coord) : Out :=
   match s.handles.lookup h with
@@ -308,8 +537,18 @@ def dump (s : State) (lid : Nat) : Out :=
   | none => .err .noLayer
   | some l => .arr ((cells l.dims).map (s.heap l.data))
 
-/-- `grid.<name>.data` (new, `__getattr__`)  /  `grid.properties[name].data` (legacy) -/
+/-- `grid.<name> = x` for a plain object `x` (`HasPropertyLayers.__setattr__`): `AttributeError` while a layer is
+    attached under that name, otherwise an ordinary instance attribute of the grid (the code's own note: the
+    protection only works if the attribute comes after the layer) -/
+def gridSet (s : State) (name : String) : State × Out :=
+  if s.impl ≠ .new then (s, .err .impl)
+  else if (s.named? name).isSome then (s, .err .attr)
+  else ({ s with gattrs := name :: s.gattrs }, .ok)
+
+/-- `grid.<name>.data` (new: the instance attribute if the user made one, else `__getattr__` = the attached layer)  /
+    `grid.properties[name].data` (legacy) -/
 def dumpName (s : State) (name : String) : Out :=
+  if s.impl = .new ∧ name ∈ s.gattrs then .err .shadowed else
   match s.named? name with
   | none => .err (if s.impl = .new then .attr else .key)
   | some lid => let l := s.layers lid; .arr ((cells l.dims).map (s.heap l.data))
@@ -321,6 +560,12 @@ def layerSelect (s : State) (lid : Nat) (p : Int → Bool) : Out :=
   | some l =>
     let m := fun c => p (s.heap l.data c)
     .sel ((cells l.dims).filter m) ((cells l.dims).map m)
+
+/-- `layer.data.dtype` -/
+def dtypeRead (s : State) (lid : Nat) : Out :=
+  match s.layer? lid with
+  | none => .err .noLayer
+  | some l => .dt (s.adt l.data)
 
 inductive Agg where | sum | max | min
 deriving Repr, DecidableEq
@@ -365,8 +610,6 @@ def writeEmpty (s : State) (c : Coord) (v : Int) : State :=
   match s.impl with
   | .new => cellAttrWrite s "empty" c v
   | _ => { s with heap := upd s.heap 0 ((s.heap 0).set c v) }
-
-def boolInt (b : Bool) : Int := if b then 1 else 0
 
 /-- the part of `remove_agent` that concerns emptiness, after the agent left cell `c`:
     new: `self.empty = self.is_empty`; SingleGrid: `mask[pos] = True`;
@@ -476,6 +719,40 @@ def selectCells (s : State) (q : Query) : Out :=
   | .error e => .err e
   | .ok m => .sel ((cells s.dims).filter m) ((cells s.dims).map m)
 
+/-! ### neighbourhood masks (`get_neighborhood_mask`) -/
+
+/-- distance of two indices along an axis of length `n`; on a torus the shorter way round -/
+def axisDist (torus : Bool) (n x y : Nat) : Nat :=
+  let d := if x ≤ y then y - x else x - y
+  if torus then min d (n - d) else d
+
+def axisDists (torus : Bool) : List Nat → Coord → Coord → List Nat
+  | n :: ns, x :: xs, y :: ys => axisDist torus n x y :: axisDists torus ns xs ys
+  | _, _, _ => []
+
+/-- is `c'` within `r` steps of `c`: king moves on a Moore grid (every axis distance ≤ r), rook steps on a
+    von Neumann grid (the axis distances sum to ≤ r).  This is what `Cell.get_neighborhood(radius)` (recursion
+    through `connections`) and legacy `_Grid.get_neighborhood(pos, moore, …, radius)` enumerate. -/
+def withinRadius (moore torus : Bool) (dims : List Nat) (c : Coord) (r : Nat) (c' : Coord) : Bool :=
+  let ds := axisDists torus dims c c'
+  if moore then ds.all (fun d => decide (d ≤ r)) else decide (ds.foldl (· + ·) 0 ≤ r)
+
+/-- `grid.get_neighborhood_mask(c, include_center, radius)` (new; `moore` is the grid class) /
+    `grid.get_neighborhood_mask(c, moore, include_center, radius)` (legacy), kept by the user as mask `k`.
+    `geom = none`: a hex grid, whose geometry this model does not have.  The centre is in the mask iff
+    `include_center`.  A radius of 0 is a `ValueError` on the new grids; `c` must be a cell of the grid. -/
+def nbhdMask (s : State) (k : Nat) (geom : Option Bool) (torus : Bool) (c : Coord) (ic : Bool) (r : Nat) :
+    State × Out :=
+  match geom with
+  | none => (s, .err .impl)
+  | some moore =>
+    if !inBounds s.dims c then (s, .err .index)
+    else if s.impl = .new ∧ r = 0 then (s, .err (.value .radius))
+    else
+      let m : Coord → Bool := fun c' =>
+        inBounds s.dims c' && (if c' = c then ic else withinRadius moore torus s.dims c r c')
+      ({ s with masks := (k, m) :: s.masks }, .sel ((cells s.dims).filter m) ((cells s.dims).map m))
+
 /-! ### the op language and histories -/
 
 inductive MaskRef where
@@ -483,29 +760,39 @@ inductive MaskRef where
   | saved (k : Nat)
 
 inductive Op where
-  | create (name : String) (default : Int)
-  | newLayer (name : String) (dims : List Nat) (default : Int)
+  | create (name : String) (dt : DType) (default : WVal)
+  | newLayer (name : String) (dims : List Nat) (dt : DType) (default : WVal)
   | attach (lid : Nat)
   | detach (name : String)
-  | layerSet (lid : Nat) (c : Coord) (v : Int)
+  | layerSet (lid : Nat) (c : Coord) (v : WVal)
   | layerGet (lid : Nat) (c : Coord)
-  | cellSet (name : String) (c : Coord) (v : Int)
+  | cellSet (name : String) (c : Coord) (v : WVal)
   | cellGet (name : String) (c : Coord)
-  | setCells (lid : Nat) (v : Int) (cond : Option (Int → Bool))
+  | cellSet2 (lid : Nat) (c : Coord) (v : WVal)
+  | cellGet2 (lid : Nat) (c : Coord)
+  | setCells (lid : Nat) (v : WVal) (cond : Option (Int → Bool))
+  | setFrom (lid : Nat) (h : Nat) (cond : Option (Int → Bool))
   | modifyCells (lid : Nat) (f : Option (Int → Int)) (cond : Option (Int → Bool))
+  | modifyT (lid : Nat) (f : Option (Int → Int)) (cond : Option (Int → Bool)) (rd : DType)
+  | modifyU (lid : Nat) (op : UOp) (x : Val) (cond : Option (Int → Bool))
   | modifyCell (lid : Nat) (c : Coord) (f : Option (Int → Int))
+  | modifyCellU (lid : Nat) (c : Coord) (op : UOp) (x : Val)
   | grab (h : Nat) (lid : Nat)
+  | fromData (name : String) (h : Nat)
   | hget (h : Nat) (c : Coord)
-  | hset (h : Nat) (c : Coord) (v : Int)
+  | hset (h : Nat) (c : Coord) (v : WVal)
   | hdump (h : Nat)
   | dump (lid : Nat)
   | dumpName (name : String)
+  | gridSet (name : String)
+  | dtype (lid : Nat)
   | layerSelect (lid : Nat) (p : Int → Bool)
   | aggregate (lid : Nat) (k : Agg)
   | place (a : Nat) (c : Coord)
   | move (a : Nat) (c : Coord)
   | remove (a : Nat)
   | empties
+  | nbhdMask (k : Nat) (geom : Option Bool) (torus : Bool) (c : Coord) (ic : Bool) (r : Nat)
   | select (masks : List MaskRef) (onlyEmpty : Bool) (conds : List (String × (Int → Bool)))
       (extremes : List (String × Option Bool)) (save : Option Nat)
 
@@ -517,30 +804,55 @@ def resolveMasks (s : State) : List MaskRef → Option (List (Coord → Bool))
     | none => none
     | some m => (resolveMasks s rest).map (m :: ·)
 
+/-- the entry a single-cell write through the cell attribute stores: cast by the dtype of the layer attached
+    under that name; without such a layer (`new`: the instance dict keeps the Python object itself) as is -/
+def State.cellWVal (s : State) (name : String) : WVal → Int
+  | .raw v => v
+  | .py x => match s.named? name with
+    | some lid => castTo (s.dtypeOf lid) x
+    | none => x.raw
+
+/-- the entry a write through a user-held reference stores -/
+def State.handleWVal (s : State) (h : Nat) (w : WVal) : Int :=
+  match s.handles.lookup h with
+  | some (a, _) => w.resolve (s.adt a)
+  | none => w.resolve .int
+
 def step (s : State) : Op → State × Out
-  | .create n d => create s n d
-  | .newLayer n dims d => newLayer s n dims d
+  | .create n dt d => create s n dt (d.resolve dt)
+  | .newLayer n dims dt d => newLayer s n dims dt (d.resolve dt)
   | .attach l => attach s l
   | .detach n => detach s n
-  | .layerSet l c v => layerSet s l c v
+  | .layerSet l c w => layerSet s l c (w.resolve (s.dtypeOf l))
   | .layerGet l c => (s, layerGet s l c)
-  | .cellSet n c v => cellSet s n c v
+  | .cellSet n c w => cellSet s n c (s.cellWVal n w)
   | .cellGet n c => (s, cellGet s n c)
-  | .setCells l v cond => setCells s l v cond
+  | .cellSet2 l c w => cellSet2 s l c w
+  | .cellGet2 l c => (s, cellGet2 s l c)
+  | .setCells l (.raw v) cond => setCells s l v cond
+  | .setCells l (.py x) cond => setCellsV s l x cond
+  | .setFrom l h cond => setFrom s l h cond
   | .modifyCells l f cond => modifyCells s l f cond
+  | .modifyT l f cond rd => modifyCellsT s l f cond rd
+  | .modifyU l op x cond => modifyU s l op x cond
   | .modifyCell l c f => modifyCell s l c f
+  | .modifyCellU l c op x => modifyCellU s l c op x
   | .grab h l => grab s h l
+  | .fromData n h => fromData s n h
   | .hget h c => (s, hget s h c)
-  | .hset h c v => hset s h c v
+  | .hset h c w => hset s h c (s.handleWVal h w)
   | .hdump h => (s, hdump s h)
   | .dump l => (s, dump s l)
   | .dumpName n => (s, dumpName s n)
+  | .gridSet n => gridSet s n
+  | .dtype l => (s, dtypeRead s l)
   | .layerSelect l p => (s, layerSelect s l p)
   | .aggregate l k => (s, aggregate s l k)
   | .place a c => place s a c
   | .move a c => move s a c
   | .remove a => remove s a
   | .empties => (s, empties s)
+  | .nbhdMask k geom torus c ic r => nbhdMask s k geom torus c ic r
   | .select ms oe conds exts save =>
     match resolveMasks s ms with
     | none => (s, .err .noMask)
